@@ -166,7 +166,9 @@ check("C13", "exploration",
       "blockchainParameters, signerHeartbeat) and one uiHeartbeat mode walk whose USB re-enumeration "
       "delays (virtual clock), post-exit modes and link-death kinds are drawn; every reply field compared "
       "with the datum the firmware-derived model holds; success of uiHeartbeat only with the device back "
-      "in its starting mode.",
+      "in its starting mode. One known finding (known_findings.txt, DESIGN.md 9.4): after an answer that "
+      "arrived later than the exchange time-out, replies carry an earlier request's data until the handle "
+      "is re-opened.",
       "A heartbeat starting in UI-heartbeat mode is judged by 'ends where it started'; numbers compared "
       "as unsigned integers whatever their JSON form.",
       SIM + "2-party simulation with virtual clock and simulated USB re-enumeration, verbatim oracle",
